@@ -27,8 +27,8 @@ func init() {
 		HangIsViol:  true,
 		CaseTimeout: 180 * time.Second,
 		Assumptions: []string{"the seeded mutator is deterministic; coverage-guided fuzzing is deliberately not used (its corpus would make runs depend on history)"},
-		Setup: func(w *core.Worker) { core.HermeticProcess(w.Work); c18LoadSeeds() },
-		Fn:    c18Case,
+		Setup:       func(w *core.Worker) { core.HermeticProcess(w.Work); c18LoadSeeds() },
+		Fn:          c18Case,
 	})
 }
 
@@ -94,7 +94,12 @@ func c18LiteralSeed(r *core.Rng) string {
 		}
 		return "`" + sb.String() + "`"
 	}
-	switch r.Intn(5) {
+	switch r.Intn(6) {
+	case 5:
+		// column references qualified by a table name that needs its quotes
+		qs := []string{"`my-t`", "`my t`", "`2019`", "`order`", "`a.b`", "`select`", "`t`", "`né`", "`x y`.`z w`", ident()}
+		q := qs[r.Intn(len(qs))]
+		return "SELECT " + q + ".c1, " + q + "." + ident() + " + 1, COUNT(" + q + ".c2) FROM " + q + " WHERE " + q + ".c1 = " + lit() + " ORDER BY " + q + ".c1"
 	case 4:
 		// chains of unary signs and NOTs
 		ops := []string{"-", "+", "- -", "-+", "+ -", "!", "NOT "}
